@@ -294,9 +294,14 @@ Del(k) == /\ kv' = [kv EXCEPT ![k] = NoVal] /\ trie' = DelN(trie, k)
           /\ Log(Rec("del", KeyIdx(k), NoVal, 0, kv[k], NoObs))
 Snap(s) == /\ snaps' = [snaps EXCEPT ![s] = [kv |-> kv, trie |-> trie, fl |-> FALSE]]
            /\ UNCHANGED <<kv, trie>>
-           /\ Log(Rec("snap", 0, NoVal, s, 0, RawObs(trie, s, kv)))
-Check(s) == /\ UNCHANGED <<kv, trie, snaps>>
-            /\ Log(Rec("check", 0, NoVal, s, 0, RawObs(snaps[s].trie, s, snaps[s].kv)))
+           /\ Log(Rec("snap", 1, NoVal, s, 0, RawObs(trie, s, kv)))
+\* ord: which kind of read meets the trie first (1 Get, 2 Iterator, 3 Filter, 4 GetProof).  The results do not depend on
+\* it; on a reloaded or cache-cleared trie the first read is the one that realizes the nodes from the database.
+Check(s, ord) == /\ UNCHANGED <<kv, trie, snaps>>
+                 /\ Log(Rec("check", ord, NoVal, s, 0, RawObs(snaps[s].trie, s, snaps[s].kv)))
+\* read every key of the mutable trie and of every snapshot (the predicted contents travel with every record)
+Look == /\ UNCHANGED <<kv, trie, snaps>>
+        /\ Log(Rec("look", 0, NoVal, 0, 0, NoObs))
 Reset(s) == /\ kv' = snaps[s].kv /\ trie' = snaps[s].trie
             /\ UNCHANGED snaps
             /\ Log(Rec("reset", 0, NoVal, s, 0, NoObs))
@@ -304,10 +309,10 @@ Flush(s) == /\ snaps' = [snaps EXCEPT ![s].fl = TRUE]
             /\ UNCHANGED <<kv, trie>>
             /\ Log(Rec("flush", 0, NoVal, s, 0, NoObs))
 \* a new mutable (and a new immutable, observed) built from the root hash of a flushed snapshot
-Reload(s) == /\ snaps[s].fl
+Reload(s, ord) == /\ snaps[s].fl
              /\ kv' = snaps[s].kv /\ trie' = snaps[s].trie
              /\ UNCHANGED snaps
-             /\ Log(Rec("reload", 0, NoVal, s, 0, RawObs(snaps[s].trie, s, snaps[s].kv)))
+             /\ Log(Rec("reload", ord, NoVal, s, 0, RawObs(snaps[s].trie, s, snaps[s].kv)))
 ClearCache(s) == /\ UNCHANGED <<kv, trie, snaps>>          \* s = 0: the mutable, else snapshot s
                  /\ Log(Rec("clear", 0, NoVal, s, 0, NoObs))
 
@@ -315,10 +320,11 @@ Can == MaxOps = 0 \/ nops < MaxOps
 Next == \/ \E k \in Keys, v \in Vals : Can /\ Set(k, v)
         \/ \E k \in Keys : Can /\ Del(k)
         \/ \E s \in 1..MaxSnaps : Can /\ Snap(s)
-        \/ \E s \in 1..MaxSnaps : Can /\ Check(s)
+        \/ \E s \in 1..MaxSnaps, ord \in 1..4 : Can /\ Check(s, ord)
+        \/ Can /\ HistOn /\ Look
         \/ \E s \in 1..MaxSnaps : Can /\ Reset(s)
         \/ \E s \in 1..MaxSnaps : Can /\ Flush(s)
-        \/ \E s \in 1..MaxSnaps : Can /\ Reload(s)
+        \/ \E s \in 1..MaxSnaps, ord \in 1..4 : Can /\ Reload(s, ord)
         \/ \E s \in 0..MaxSnaps : Can /\ ClearCache(s)
 Spec == Init /\ [][Next]_vars
 
